@@ -890,11 +890,59 @@ func (g *Graph) factsLattice() Lattice[Facts] {
 					return s
 				}
 				n := s.clone()
+				// x += k: what was known about x relative to other terms holds shifted by k
+				type shifted struct {
+					u, v ast.Expr
+					w    int
+				}
+				var carry []shifted
+				inLoop := func(n ast.Node) bool {
+					for cur := g.P.Parent(n); cur != nil; cur = g.P.Parent(cur) {
+						switch cur.(type) {
+						case *ast.ForStmt, *ast.RangeStmt:
+							return true
+						case *ast.FuncDecl, *ast.FuncLit:
+							return false
+						}
+					}
+					return false
+				}
+				// (not for loop counters: their bounds come from the loop condition, and shifting them never settles)
+				if xid, delta, isDelta := stepDelta(info, st.Node); isDelta && len(s.rel) > 0 && len(s.rel) < 40 && !inLoop(st.Node) {
+					if t := info.TypeOf(xid); t != nil {
+						if _, _, isInt := intInfo(t); isInt {
+							d := newDBM(g, s, nil)
+							terms := map[string]ast.Expr{zeroNode: nil}
+							for _, ra := range s.rel {
+								for _, e := range []ast.Expr{ra.X, ra.Y} {
+									if base, _, ok := d.termExpr(e); ok && base != nil {
+										if nm := normStr(info, base); !mentions(nm, xid.Name) {
+											terms[nm] = base
+										}
+									}
+								}
+							}
+							if len(terms) <= 10 {
+								for nm, te := range terms {
+									if w, ok := d.dist(xid.Name, nm); ok && w < 1<<20 && w > -(1<<20) {
+										carry = append(carry, shifted{xid, te, w + delta})
+									}
+									if w, ok := d.dist(nm, xid.Name); ok && w < 1<<20 && w > -(1<<20) {
+										carry = append(carry, shifted{te, xid, w - delta})
+									}
+								}
+							}
+						}
+					}
+				}
 				for _, l := range lhs {
 					if id, ok := l.(*ast.Ident); ok && id.Name == "_" {
 						continue
 					}
 					n.kill(exprStr(l))
+				}
+				for _, c := range carry {
+					n.setLE(c.u, c.v, c.w)
 				}
 				for _, r := range unlockRoots {
 					for k := range n.m {
@@ -1285,12 +1333,6 @@ func joinFacts(g *Graph, a, b Facts, widen bool) Facts {
 	}
 	sort.Strings(names)
 	names = append(names, zeroNode)
-	lit := func(k int) ast.Expr {
-		if k < 0 {
-			return &ast.UnaryExpr{Op: token.SUB, X: &ast.BasicLit{Kind: token.INT, Value: fmtInt(-k)}}
-		}
-		return &ast.BasicLit{Kind: token.INT, Value: fmtInt(k)}
-	}
 	exprOf := func(name string) ast.Expr {
 		if name == zeroNode {
 			return nil
@@ -1320,27 +1362,64 @@ func joinFacts(g *Graph, a, b Facts, widen bool) Facts {
 			if wn, ok := dn.dist(u, v); ok && wn <= w {
 				continue // already implied
 			}
-			// u <= v + w   encoded as   !(v + w < u)
-			ue, ve := exprOf(u), exprOf(v)
-			var lhs, rhs ast.Expr
-			switch {
-			case ue == nil: // 0 <= v + w  ->  !(v < -w)
-				lhs, rhs = ve, lit(-w)
-				n.setRel(token.LSS, lhs, rhs, false)
-			case ve == nil: // u <= w  -> !(w < u)
-				n.setRel(token.LSS, lit(w), ue, false)
-			default:
-				if w == 0 {
-					n.setRel(token.LSS, ve, ue, false)
-				} else if w > 0 {
-					n.setRel(token.LSS, &ast.BinaryExpr{X: ve, Op: token.ADD, Y: lit(w)}, ue, false)
-				} else {
-					n.setRel(token.LSS, &ast.BinaryExpr{X: ve, Op: token.SUB, Y: lit(-w)}, ue, false)
+			n.setLE(exprOf(u), exprOf(v), w)
+		}
+	}
+	return n
+}
+
+// setLE records u <= v + w (nil stands for the constant 0), encoded as !(v + w < u).
+func (n *Facts) setLE(ue, ve ast.Expr, w int) {
+	lit := func(k int) ast.Expr {
+		if k < 0 {
+			return &ast.UnaryExpr{Op: token.SUB, X: &ast.BasicLit{Kind: token.INT, Value: fmtInt(-k)}}
+		}
+		return &ast.BasicLit{Kind: token.INT, Value: fmtInt(k)}
+	}
+	switch {
+	case ue == nil && ve == nil:
+	case ue == nil: // 0 <= v + w  ->  !(v < -w)
+		n.setRel(token.LSS, ve, lit(-w), false)
+	case ve == nil: // u <= w  -> !(w < u)
+		n.setRel(token.LSS, lit(w), ue, false)
+	default:
+		if w == 0 {
+			n.setRel(token.LSS, ve, ue, false)
+		} else if w > 0 {
+			n.setRel(token.LSS, &ast.BinaryExpr{X: ve, Op: token.ADD, Y: lit(w)}, ue, false)
+		} else {
+			n.setRel(token.LSS, &ast.BinaryExpr{X: ve, Op: token.SUB, Y: lit(-w)}, ue, false)
+		}
+	}
+}
+
+// stepDelta: the statement adds a constant to an integer local (x++, x--, x += c, x -= c): the local and the amount.
+func stepDelta(info *types.Info, n ast.Node) (*ast.Ident, int, bool) {
+	switch x := n.(type) {
+	case *ast.IncDecStmt:
+		if id, ok := ast.Unparen(x.X).(*ast.Ident); ok {
+			if _, isVar := info.Uses[id].(*types.Var); isVar {
+				if x.Tok == token.INC {
+					return id, 1, true
+				}
+				return id, -1, true
+			}
+		}
+	case *ast.AssignStmt:
+		if len(x.Lhs) == 1 && len(x.Rhs) == 1 && (x.Tok == token.ADD_ASSIGN || x.Tok == token.SUB_ASSIGN) {
+			if id, ok := ast.Unparen(x.Lhs[0]).(*ast.Ident); ok {
+				if k, isK := constInt(info, x.Rhs[0]); isK && k > -(1<<20) && k < 1<<20 {
+					if _, isVar := info.Uses[id].(*types.Var); isVar {
+						if x.Tok == token.SUB_ASSIGN {
+							k = -k
+						}
+						return id, int(k), true
+					}
 				}
 			}
 		}
 	}
-	return n
+	return nil, 0, false
 }
 
 // commaOkSource: id is the `ok` of `v, ok := m[k]` in the init of the if statement whose condition is cond
